@@ -55,7 +55,7 @@ def run(ctx):
                "the MusicXML 4.0 standard, which is not available offline")
     res.assume("only the *description* handed to the matcher is compared with the schema; the matcher's run-time "
                "acceptance of words is not decided (see C02 in DESIGN.md section 5)")
-    T.check_naming_functions(sm, res)
+    T.check_naming_functions(sm, res, ctx.schema)
 
     m_el = sm.modules[T.M_XMLELEMENT]
     ns_el = sm.namespace(T.M_XMLELEMENT)
